@@ -40,7 +40,7 @@ class C13(Check):
     nontrivial_rule = ("the script performed at least two result-producing calls (solve / find_another*) on one solver object "
                        "and the reference model (examiner + blocking state) judged each of them")
     expected_probes = ["pattern:solve>solve", "pattern:solve>find_another", "false_judged_by_examiner", "fault:unknown",
-                       "fault:virtual-timeout", "cfg:incremental", "cfg:optimize", "cfg:none", "io_error_out_of_solve"]
+                       "fault:virtual-timeout", "fault:interrupt", "cfg:incremental", "cfg:optimize", "cfg:none", "io_error_out_of_solve"]
 
     def plan(self, run_seed, tier):
         rng = keyed_rng(run_seed, "plan")
@@ -102,7 +102,12 @@ class C13(Check):
                         # unknown at a random check of this op
                         at = rng.choice([0, 0, 1, 2, 3])
                         env = [{} for _ in range(at)] + [{"verdict": "unknown", "reason": rng.choice(["canceled", "timeout", "incomplete"])}]
-                    elif r < 0.35:
+                    elif r < 0.27:
+                        # the user interrupts the call (Ctrl-C) while the engine is at its n-th check;
+                        # the solver object is then used again
+                        at = rng.choice([0, 1, 1, 2, 3])
+                        env = [{} for _ in range(at)] + [{"interrupt": True}]
+                    elif r < 0.4:
                         # slow checks: trip "max time exceeded" / virtual timeout
                         lat = rng.choice([0.4, 0.9, 2.5, 6.0, 30.0])
                         env = [{"latency": lat} for _ in range(rng.randint(1, 5))]
@@ -179,6 +184,8 @@ class C13(Check):
                 v.violate("C13", f"no_progress/{cc}/{pattern}", [], ev.get("exc"), ev["seq"], "A")
             elif out == "slow_convergence":
                 v.probe("step_cap_on_monotone_descent(inconclusive)")
+            elif out == "interrupted":
+                v.probe("interrupted_then_reused")   # legal; what the object answers afterwards is judged
             elif out == "false":
                 n_results += 1
                 if ev.get("faults"):
